@@ -954,6 +954,121 @@ static void runHrpf(const Case &c) {
   delete d;
 }
 
+
+// The chunked decoding table(s) of a real dictionary as `processChunk` sees them: codewords, the
+// position table (run-length coded, with the `endings` bit), the distinct stream entries, the
+// decoding subtrees, and a trace of `processChunk` over texts encoded with the same codewords;
+// re-validated and re-run by the Lean driver (`ctchk`).
+static void dumpChunkTable(DecodingTable *T, Codeword *cw, const vector<string> &texts, uint e0) {
+  uint k = T->k;
+  size_t entries = (size_t)1 << k;
+  string scw, spos, sent, strees, sruns;
+  for (uint i = 0; i < 256; i++) {
+    char b[40]; snprintf(b, sizeof b, "%s%u:%x", i ? "," : "", cw[i].bits, cw[i].codeword); scw += b;
+  }
+  std::set<uint> seen;
+  size_t i = 0;
+  while (i < entries) {
+    uint p = T->table[i]; bool e = T->endings->getBit(i);
+    size_t j = i;
+    while (j < entries && T->table[j] == p && T->endings->getBit(j) == e) j++;
+    char b[48]; snprintf(b, sizeof b, "%s%u:%d*%zu", i ? "," : "", p, e ? 1 : 0, j - i); spos += b;
+    if (!seen.count(p)) {
+      seen.insert(p);
+      if (p < T->bytesStream) {
+        uchar ctl = T->stream[p];
+        uint len = (ctl & 240) >> 4, bits = (ctl & 15) + 1;
+        if (!sent.empty()) sent += ";";
+        if (len != 0) {
+          size_t n = std::min<size_t>(len, T->bytesStream - p - 1);
+          sent += std::to_string(p) + ":" + std::to_string(len) + ":" + std::to_string(bits) + ":" + hex(T->stream + p + 1, n);
+        } else {
+          uint id = 0; VByte::decode(&id, T->stream + p + 1);
+          sent += std::to_string(p) + ":T:" + std::to_string(id) + ":" + std::to_string(bits);
+        }
+      }
+    }
+    i = j;
+  }
+  for (uint t = 0; t < T->nodes; t++) {
+    DecodingTree *dt = T->subtrees[t];
+    if (t) strees += ";";
+    for (uint nn = 0; nn < dt->nodes; nn++) {
+      char b[64]; snprintf(b, sizeof b, "%s%d/%d/%d", nn ? "," : "", dt->tree[nn].symbol, dt->tree[nn].children[0], dt->tree[nn].children[1]);
+      strees += b;
+    }
+  }
+  for (size_t ti = 0; ti < texts.size(); ti++) {
+    const string &tx = texts[ti];
+    // encode with the codewords, most significant bit first
+    vector<uchar> buf; uint acc = 0, nb = 0; bool ok = true;
+    for (unsigned char ch : tx) {
+      uint bits = cw[ch].bits, code = cw[ch].codeword;
+      if (bits == 0) { ok = false; break; }
+      for (int b = (int)bits - 1; b >= 0; b--) {
+        acc = (acc << 1) | ((code >> b) & 1); nb++;
+        if (nb == 8) { buf.push_back((uchar)acc); acc = 0; nb = 0; }
+      }
+    }
+    if (nb) buf.push_back((uchar)(acc << (8 - nb)));
+    if (ti) sruns += "|";
+    if (!ok) { sruns += "noenc"; continue; }
+    vector<uchar> guard(buf.size() + 8, 0);       // the bucket bytes with a small tail
+    memcpy(guard.data(), buf.data(), buf.size());
+    vector<uchar> str(tx.size() + 96, 0);
+    ChunkScan c; c.c_chunk = 0; c.c_valid = 0; c.b_ptr = guard.data(); c.b_remain = (uint)buf.size();
+    c.str = str.data(); c.strLen = 0; c.advanced = 0; c.extracted = e0;
+    size_t decoded = 0; int steps = 0; string run;
+    while (decoded < tx.size() && steps < 100000) {
+      uint before = c.strLen, exb = c.extracted;
+      bool f = T->processChunk(&c);
+      uint len = c.extracted - exb;
+      char b[96];
+      snprintf(b, sizeof b, "%s%s/%d/%u/%u/%u/%u/%u", steps ? "," : "", hex(str.data() + before, len).c_str(), f ? 1 : 0, c.strLen, c.advanced, c.extracted,
+               (unsigned)c.c_valid, c.b_remain);
+      run += b;
+      decoded += len; steps++;
+      // the test driver's protocol (the Lean side applies the same): keep what was written, and after a
+      // string end count the symbols extracted in advance as the start of the next string
+      c.strLen = before + len;
+      if (f) { c.extracted = c.advanced; c.advanced = 0; }
+    }
+    sruns += run.empty() ? "-" : run;
+  }
+  emit("CT k=%u cw=%s pos=%s ent=%s trees=%s runs=%s", k, scw.c_str(), spos.c_str(), sent.empty() ? "-" : sent.c_str(),
+       strees.empty() ? "-" : strees.c_str(), sruns.empty() ? "-" : sruns.c_str());
+}
+
+static void runChunks(const Case &c) {
+  StringDictionary *d = construct(c);
+  if (!d) { emit("ERR cannot-construct"); return; }
+  for (auto &op : c.ops) {
+    g_op++;
+    if (op[0] == "reload") {
+      string img = saveImage(d);
+      std::stringstream ss(img, std::ios::in | std::ios::binary);
+      StringDictionary *d2 = loadOwn(c.kind, ss, 1);
+      delete d; d = d2;
+      emit("RQ reloaded");
+      if (!d) return;
+    } else if (op[0] == "ct") {   // ct <which 0|1> <e0> <text hex,text hex,...>
+      int which = atoi(op[1].c_str()); uint e0 = (uint)atoi(op[2].c_str());
+      vector<string> texts;
+      if (op.size() > 3 && op[3] != "-") for (auto &h : splitc(op[3])) texts.push_back(unhex(h));
+      DecodingTable *T = nullptr; Codeword *cw = nullptr;
+      const string &k = c.kind;
+      if (k == "HTFC") { auto *x = (StringDictionaryHTFC *)d; T = x->table; cw = x->codewords; }
+      else if (k == "HHTFC") { auto *x = (StringDictionaryHHTFC *)d; T = which ? x->tableHU : x->tableHT; cw = which ? x->codewordsHU : x->codewordsHT; }
+      else if (k == "RPHTFC") { auto *x = (StringDictionaryRPHTFC *)d; T = x->tableHT; cw = x->codewordsHT; }
+      else if (k == "HASHHF") { auto *x = (StringDictionaryHASHHF *)d; T = x->table; cw = x->codewords; }
+      else if (k == "HASHUFFDAC") { auto *x = (StringDictionaryHASHUFFDAC *)d; T = x->table; cw = x->codewords; }
+      if (!T || !cw) { emit("ERR no-table"); continue; }
+      dumpChunkTable(T, cw, texts, e0);
+    } else emit("ERR unknown-op");
+  }
+  delete d;
+}
+
 // ---------------------------------------------------------------------------
 static void runCase(const Case &c) {
   if (c.stream == "dict") runDict(c);
@@ -964,6 +1079,7 @@ static void runCase(const Case &c) {
   else if (c.stream == "bits") runBits(c);
   else if (c.stream == "repair") runRePair(c);
   else if (c.stream == "dac") runDac(c);
+  else if (c.stream == "chunks") runChunks(c);
   else if (c.stream == "rpdac") { if (c.kind == "HASHRPDAC") runHrpdac(c); else if (c.kind == "HASHRPF") runHrpf(c); else runRpdac(c); }
   else emit("ERR unknown-stream %s", c.stream.c_str());
 }
